@@ -591,11 +591,16 @@ class LRUTrie(object):
 
                     last_tail_size = 0
 
-        stats["ratio_fragmented_stems"] = stats["nb_fragmented_nodes"] / float(
-            stats["nb_stems"]
+        # NOTE: an empty trie has no stem and no node
+        stats["ratio_fragmented_stems"] = (
+            stats["nb_fragmented_nodes"] / float(stats["nb_stems"])
+            if stats["nb_stems"]
+            else 0.0
         )
 
-        stats["page_block_density"] = stats["nb_pages"] / float(stats["nb_nodes"])
+        stats["page_block_density"] = (
+            stats["nb_pages"] / float(stats["nb_nodes"]) if stats["nb_nodes"] else 0.0
+        )
 
         return stats
 
@@ -672,9 +677,9 @@ class LRUTrie(object):
         return {
             "nb_bst": nb_bst,
             "max_bst_height": max_bst_height,
-            "avg_bst_height": sum_bst_height / float(nb_bst),
+            "avg_bst_height": sum_bst_height / float(nb_bst) if nb_bst else 0.0,
             "max_bst_size": max_bst_size,
-            "avg_bst_size": sum_bst_size / float(nb_bst),
+            "avg_bst_size": sum_bst_size / float(nb_bst) if nb_bst else 0.0,
             "max_bst_ratio": max_bst_ratio,
-            "avg_bst_ratio": sum_bst_ratio / float(nb_bst),
+            "avg_bst_ratio": sum_bst_ratio / float(nb_bst) if nb_bst else 0.0,
         }
